@@ -1,9 +1,9 @@
-(* NEEDS: Mem/PropList.vo Mem/ParamSlots.vo Mem/AddArrays.vo Mem/DataAlloc.vo Mem/HashTab.vo *)
+(* NEEDS: Mem/PropList.vo Mem/ParamSlots.vo Mem/AddArrays.vo Mem/DataAlloc.vo Mem/DataZ0.vo Mem/HashTab.vo *)
 (* Extraction of the executable memory models (C03 / C12).  Only ExtrOcamlBasic's directives. *)
 Require Extraction.
 Require Import ExtrOcamlBasic.
 Require Import List ZArith.
-Require Import LV.Mem.Alloc LV.Mem.PropList LV.Mem.ParamSlots LV.Mem.AddArrays LV.Mem.DataAlloc LV.Mem.HashTab.
+Require Import LV.Mem.Alloc LV.Mem.PropList LV.Mem.ParamSlots LV.Mem.AddArrays LV.Mem.DataAlloc LV.Mem.DataZ0 LV.Mem.HashTab.
 Extraction Language OCaml.
 Set Extraction KeepSingleton.
 Extraction "models_mem.ml"
@@ -12,5 +12,6 @@ Extraction "models_mem.ml"
   pempty pstep teardown slots
   add_arrays mkAdd
   dnew resize dfree
+  zstep mkO od ofr opt
   ph_init phstep table_free hblk hcount hbuckets nkey
   map_new mstep map_free mblk mtab morder.
